@@ -953,9 +953,21 @@ example : transferTril ⟨.clipped [3], .atMost 3⟩ = some ⟨.fixedDim 2, .any
 theorem pool2d_static_sound {i o : SInfo} {s t : Shape} {kk sk : ArrK} {kv sv : List Nat} {ceil : Bool}
     (h : i.γ s) (hk : kk.γ kv) (hs : sk.γ sv) (href : refPool ceil kv sv s = some t)
     (ho : transferPool2d kk sk ceil i = some o) : o.γ t := by
-  simp only [transferPool2d, Option.map_eq_some_iff] at ho
+  simp only [transferPool2d, transferPool2dOn, Option.map_eq_some_iff] at ho
   obtain ⟨d, hd, rfl⟩ := ho
   exact takeInfo_sound (poolShapeK_sound h.1 hk hs href hd)
+
+/-- the same when the pooled operand answers `nmtools::shape(a)` with another (sound) shape type than its knowledge says
+    (`na::fixed_ndarray`: a run-time array of its constant extents) -/
+theorem pool2d_on_static_sound {src : ShapeK} {o : SInfo} {s t : Shape} {kk sk : ArrK} {kv sv : List Nat} {ceil : Bool}
+    (h : src.γ s) (hk : kk.γ kv) (hs : sk.γ sv) (href : refPool ceil kv sv s = some t)
+    (ho : transferPool2dOn src kk sk ceil = some o) : o.γ t := by
+  simp only [transferPool2dOn, Option.map_eq_some_iff] at ho
+  obtain ⟨d, hd, rfl⟩ := ho
+  exact takeInfo_sound (poolShapeK_sound h hk hs href hd)
+
+example : transferPool2dOn (.fixedDim 2) (.ct [2, 2]) (.ct [1, 1]) false = some ⟨.fixedDim 2, .any⟩ ∧
+    (ShapeK.fixedDim 2).γ [2, 3] ∧ refPool false [2, 2] [1, 1] [2, 3] = some [1, 2] := by decide
 
 example : refPool false [2, 2] [1, 1] [5, 3, 4] = some [5, 2, 3] ∧ refPool true [2, 2] [2, 2] [3, 4] = some [2, 2] ∧
     refPool true [2, 2] [3, 3] [4, 4] = some [2, 2] ∧ refPool true [1, 1] [3, 3] [3, 4] = some [1, 2] := by decide
